@@ -253,3 +253,101 @@ Lemma meta_span_inlined_token_refuted :
   exists o cs m, f23_tree = PNode None o cs /\ build (PNode None o cs) = SHTree m /\
     m_start m = Some (1, 1, 2) /\ first_start (flat_map toks cs) = Some (0, 1, 1).
 Proof. do 3 eexists. split; [reflexivity|]. vm_compute. repeat split. Qed.
+
+(* ---- children's spans are ordered, disjoint and nested in the parent's -------------------------
+   Token streams are in text order (C06 lexer_coords: [chain]); a child's matched tokens are a
+   contiguous segment b of the parent's a ++ b ++ c, and by meta_span every span is
+   (start of first, end of last) of its segment. *)
+Definition tpos (t : trip) : Z := fst (fst t).
+
+Fixpoint ordered (l : list (trip * trip)) : Prop :=
+  match l with
+  | [] => True
+  | x :: r => tpos (fst x) <= tpos (snd x) /\
+              match r with [] => True | y :: _ => tpos (snd x) <= tpos (fst y) end /\ ordered r
+  end.
+
+Lemma ordered_head_le x r y : ordered (x :: r) -> In y r -> tpos (snd x) <= tpos (fst y) /\ tpos (snd x) <= tpos (snd y).
+Proof.
+  revert x. induction r as [|z r IH]; intros x H Hin; [destruct Hin|].
+  destruct H as (Hx & Hxz & Hr). pose proof Hr as (Hz & _ & _).
+  destruct Hin as [<- | Hin]; [lia|].
+  destruct (IH z Hr Hin). lia.
+Qed.
+
+Lemma ordered_tail x r : ordered (x :: r) -> ordered r.
+Proof. intros (_ & _ & H). exact H. Qed.
+
+Lemma ordered_app_r a b : ordered (a ++ b) -> ordered b.
+Proof. induction a as [|x a IH]; [auto|]. intros H. apply IH. exact (ordered_tail _ _ H). Qed.
+
+Lemma ordered_app_l a b : ordered (a ++ b) -> ordered a.
+Proof.
+  induction a as [|x a IH]; [intros; exact I|]. cbn [app ordered]. intros (H1 & H2 & H3).
+  split; [exact H1|]. split; [destruct a; [exact I|exact H2]|auto].
+Qed.
+
+Lemma ordered_app_le a b x y : ordered (a ++ b) -> In x a -> In y b -> tpos (snd x) <= tpos (fst y).
+Proof.
+  induction a as [|z a IH]; intros H Hx Hy; [destruct Hx|].
+  destruct Hx as [<- | Hx].
+  - apply (ordered_head_le z (a ++ b) y H). apply in_or_app. right. exact Hy.
+  - apply IH; auto. exact (ordered_tail _ _ H).
+Qed.
+
+Lemma ordered_within b x y : ordered b -> hd_error b = Some x -> last_error b = Some y ->
+  tpos (fst x) <= tpos (snd y) /\ (forall z, In z b -> tpos (fst x) <= tpos (fst z) /\ tpos (snd z) <= tpos (snd y)).
+Proof.
+  intros H Hh Hl. destruct b as [|x' r]; [discriminate|]. injection Hh as ->.
+  assert (Hy : In y (x :: r)).
+  { unfold last_error in Hl. apply in_rev. destruct (rev (x :: r)); [discriminate|]. injection Hl as ->. left. reflexivity. }
+  assert (Hlast : forall z, In z (x :: r) -> tpos (snd z) <= tpos (snd y)).
+  { intros z Hz. apply in_split in Hz. destruct Hz as (l1 & l2 & E).
+    destruct l2 as [|w l2].
+    - unfold last_error in Hl. rewrite E, rev_app_distr in Hl. cbn in Hl. injection Hl as ->. lia.
+    - assert (Hy2 : In y (w :: l2)).
+      { unfold last_error in Hl. rewrite E in Hl. change (z :: w :: l2) with ([z] ++ w :: l2) in Hl.
+        rewrite app_assoc, rev_app_distr in Hl. apply in_rev.
+        destruct (rev (w :: l2)) eqn:Er.
+        - apply (f_equal (@rev _)) in Er. rewrite rev_involutive in Er. discriminate.
+        - cbn in Hl. injection Hl as ->. left. reflexivity. }
+      rewrite E in H. apply ordered_app_r in H.
+      destruct (ordered_head_le z (w :: l2) y H Hy2). lia. }
+  pose proof H as (Hx & _ & _). split.
+  - specialize (Hlast x (or_introl eq_refl)). lia.
+  - intros z [<- | Hz]; split; try lia.
+    + apply Hlast. left. reflexivity.
+    + destruct (ordered_head_le x r z H Hz).
+      apply in_split in Hz. destruct Hz as (l1 & l2 & ->).
+      apply ordered_tail, ordered_app_r in H. destruct H as (Hz' & _). lia.
+    + apply Hlast. right. exact Hz.
+Qed.
+
+(* a segment b of an ordered token list: its span lies inside the whole span, after every token
+   before it and before every token after it *)
+Theorem spans_ordered_nested a b c s e s' e' :
+  ordered (a ++ b ++ c) ->
+  first_start (a ++ b ++ c) = Some s -> last_end (a ++ b ++ c) = Some e ->
+  first_start b = Some s' -> last_end b = Some e' ->
+  tpos s <= tpos s' /\ tpos s' <= tpos e' /\ tpos e' <= tpos e /\
+  (forall x, In x a -> tpos (snd x) <= tpos s') /\ (forall y, In y c -> tpos e' <= tpos (fst y)).
+Proof.
+  intros H Hs He Hs' He'.
+  unfold first_start, last_end in *.
+  destruct (hd_error (a ++ b ++ c)) as [t0|] eqn:E0; [|discriminate]. injection Hs as <-.
+  destruct (last_error (a ++ b ++ c)) as [t1|] eqn:E1; [|discriminate]. injection He as <-.
+  destruct (hd_error b) as [u0|] eqn:F0; [|discriminate]. injection Hs' as <-.
+  destruct (last_error b) as [u1|] eqn:F1; [|discriminate]. injection He' as <-.
+  destruct (ordered_within _ _ _ H E0 E1) as (_ & Hall).
+  assert (Hb : ordered b) by (apply ordered_app_r, ordered_app_l in H; exact H).
+  destruct (ordered_within _ _ _ Hb F0 F1) as (Hse & _).
+  assert (Iu0 : In u0 b) by (destruct b; [discriminate|injection F0 as ->; left; reflexivity]).
+  assert (Iu1 : In u1 b).
+  { unfold last_error in F1. apply in_rev. destruct (rev b); [discriminate|]. injection F1 as ->. left. reflexivity. }
+  split; [apply Hall; apply in_or_app; right; apply in_or_app; left; exact Iu0|].
+  split; [exact Hse|].
+  split; [apply Hall; apply in_or_app; right; apply in_or_app; left; exact Iu1|].
+  split.
+  - intros x Hx. apply (ordered_app_le a (b ++ c) x u0 H Hx). apply in_or_app. left. exact Iu0.
+  - intros y Hy. apply ordered_app_r in H. apply (ordered_app_le b c u1 y H Iu1 Hy).
+Qed.
